@@ -88,25 +88,38 @@ Theorem C19_parse_format16 : forall bs, bytes_ok bs = true ->
 Proof. exact (fun bs H => conj (parse_format16 bs H) (receive_format16 bs H)). Qed.
 Print Assumptions C19_parse_format16.
 
-(* a "rsp=0xNN" failure line yields exactly that completion code.
-   PARTIAL: the full statement has no hypotheses on the line besides cc < 256 and a text
-   taken from ipmitool's table; here the three earlier branches of the parser loop (the
-   word "failed", the time-out pattern, "Unable to establish") are assumed not to fire on
-   the line; that they do not is proved only by computation for every completion code x
-   ipmitool's texts x sample header fields (C19_rsp_line_sweep), not for all field values. *)
-Theorem C19_rsp_line_partial : forall chn netfn lun cmd cc text rc,
-  cc < 256 -> (rc =? 127) = false -> no_nl text = true -> contains (B "rsp=0x") text = false ->
-  contains (B "failed") (rsp_body chn netfn lun cmd cc text) = false ->
-  timeout_match (rsp_body chn netfn lun cmd cc text) = false ->
-  contains (B "Unable to establish") (rsp_body chn netfn lun cmd cc text) = false ->
+(* a "rsp=0xNN" failure line yields exactly that completion code and no data: for EVERY
+   completion code 0..255 (printed by ipmitool with %x, i.e. one hex digit below 0x10), every
+   channel / netfn / lun / command number, every exit status other than 127 and every
+   description text satisfying the decidable side condition [text_ok] (no newline and none of
+   the trigger substrings of the other parser branches: failed, Unable to establish, rsp=0x,
+   cmd=0x) *)
+Theorem C19_rsp_line : forall chn netfn lun cmd cc text,
+  cc < 256 -> text_ok text = true -> forall rc, (rc =? 127) = false ->
+  parse_output (rsp_line chn netfn lun cmd cc text) = Ok (Some cc, None) /\
   receive (rsp_line chn netfn lun cmd cc text) rc = Ok [cc].
-Proof. exact rsp_line_mapping. Qed.
-Print Assumptions C19_rsp_line_partial.
+Proof. exact rsp_line_full. Qed.
+Print Assumptions C19_rsp_line.
 
-Theorem C19_rsp_line_sweep :
-  forallb (fun cc => forallb (fun f => forallb (rsp_case cc f) cc_texts) field_samples) all_bytes = true.
-Proof. exact rsp_sweep. Qed.
-Print Assumptions C19_rsp_line_sweep.
+(* ipmitool's own completion-code descriptions (and the Unknown (0xNN) form, and the empty
+   text) satisfy the side condition *)
+Theorem C19_cc_texts_ok : forallb text_ok cc_texts = true.
+Proof. exact cc_texts_ok. Qed.
+Print Assumptions C19_cc_texts_ok.
+
+(* exit status of the child: 127 -> RuntimeError whatever was printed; a completion code
+   found in the output is returned whatever the status; otherwise a non-zero status is a
+   RuntimeError and status 0 returns 00 followed by the reply bytes *)
+Theorem C19_exit_status :
+  (forall out, receive out 127 = Err (OtherError OtherExc)) /\
+  (forall out rc cc rsp, (rc =? 127) = false -> cc < 256 -> parse_output out = Ok (Some cc, rsp) ->
+     receive out rc = Ok [cc]) /\
+  (forall out rc rsp, (rc =? 127) = false -> rc <> 0 -> parse_output out = Ok (None, rsp) ->
+     receive out rc = Err (OtherError OtherExc)) /\
+  (forall out rsp, parse_output out = Ok (None, rsp) ->
+     receive out 0 = Ok (0 :: match rsp with Some bs => bs | None => [] end)).
+Proof. exact exit_status_rules. Qed.
+Print Assumptions C19_exit_status.
 
 (* time-outs, connection failures and over-long passwords map to their specific errors *)
 Theorem C19_error_mapping :
